@@ -146,11 +146,31 @@ def pieces_of(node, sources) -> List[Piece]:
         q = describe(node.args[0], sources)
         if q is not None:
             return [Piece('join', seq=q, sep=src(node.func.value), node=node)]
+        # a join over a concatenation of lists: SEP.join(A + [x] + B)  (the separators between the parts are not modelled)
+        parts = _concat_operands(node.args[0])
+        if len(parts) > 1:
+            out = []
+            for part in parts:
+                qp = describe(part, sources)
+                if qp is not None:
+                    out.append(Piece('join', seq=qp, sep=src(node.func.value), node=node))
+                elif isinstance(part, (ast.List, ast.Tuple)):
+                    for e in part.elts:
+                        out.extend(pieces_of(e, sources))
+                else:
+                    out.append(Piece('other', text=src(part), node=part))
+            return out
     if isinstance(node, (ast.Constant, ast.Name)):
         return [Piece('const', text=src(node), node=node)]
     if isinstance(node, ast.Call) and len(node.args) == 1 and not node.keywords and _mentions(node.args[0], sources):
         return [Piece('call', text=src(node.func), inner=pieces_of(node.args[0], sources), node=node)]
     return [Piece('other', text=src(node), node=node)]
+
+
+def _concat_operands(node):
+    if isinstance(node, ast.BinOp) and isinstance(node.op, ast.Add):
+        return _concat_operands(node.left) + _concat_operands(node.right)
+    return [node]
 
 
 def _mentions(node, sources):
